@@ -33,7 +33,7 @@ theorem writable_untouched (o : Options) (p : Bytes) (s : DState) (m : Nat) (b :
 /-- **the read-only check only looks**: whatever the target, the options and the outcome, `fix_permissions_if_needed` performs no
     file system operation and leaves the tree as it is (it reads the mode, prints the warning, decides). So a refusal or an abort
     after the check — `--read-only=fail`, a missing prerequisite, a malformed body, an unreadable input — finds the mode of the
-    target untouched: the `chmod` of a read-only target is `makeWritable`'s, right before the backup and the write. -/
+    target untouched: the `chmod` of a read-only target is `makeWritable`'s, after the backup and right before the write. -/
 theorem fixPermissions_reads_only (o : Options) (p : Bytes) (s s' : DState) (r : Except Exn PermResult)
     (h : (fixPermissionsIfNeeded o p).run s = (r, s')) : s'.fs = s.fs ∧ s'.trace = s.trace := by
   have h : run (fixPermissionsIfNeeded o p) s = (r, s') := h
@@ -47,39 +47,43 @@ theorem fixPermissions_reads_only (o : Options) (p : Bytes) (s s' : DState) (r :
        all_goals (cases h; exact ⟨rfl, rfl⟩))
 
 /-- `DriverFacts.ChmodLate d ops`, spelled out: every `chmod p` among `ops` comes after a `creat p` (it is the permission callback
-    that follows the write of `p`), or is followed — with nothing but `mkdir`s in between — by the operation it prepares — the
-    backup (`rename p …`, or the creation of an empty backup file) or the re-creation of the target —, or, only if `d`, is followed
-    by `mkdir`s only up to the end -/
+    that follows the write of `p`), or is DIRECTLY followed by the re-creation `creat p` of the target it prepares, or, only if `d`,
+    is the very last operation.
+
+    CHANGED with the model change "the backup is taken before `make_writable`" (D93): the middle alternative was "is followed — with
+    nothing but `mkdir`s in between — by the backup (`rename p …` / `creat` of an empty backup) or the re-creation", the last one
+    "is followed by `mkdir`s only": the `chmod` of a read-only target now comes after the backup and its `mkdir`s. -/
 theorem chmodLate_iff (d : Prop) (ops : List FsOp) : DriverFacts.ChmodLate d ops ↔
+    ∀ i p m, ops[i]? = some (FsOp.chmod p m) →
+      (∃ j, j < i ∧ ops[j]? = some (FsOp.creat p)) ∨
+      ops[i + 1]? = some (FsOp.creat p) ∨
+      (d ∧ i + 1 = ops.length) := Iff.rfl
+
+/-- the property as it was stated before the backup moved in front of `make_writable` follows -/
+theorem chmodLate_weak {d : Prop} {ops : List FsOp} (h : DriverFacts.ChmodLate d ops) :
     ∀ i p m, ops[i]? = some (FsOp.chmod p m) →
       (∃ j, j < i ∧ ops[j]? = some (FsOp.creat p)) ∨
       (∃ k op, ops[i + 1 + k]? = some op ∧ ((∃ b, op = FsOp.rename p b) ∨ ∃ b, op = FsOp.creat b) ∧
         ∀ j, j < k → ∃ q, ops[i + 1 + j]? = some (FsOp.mkdir q)) ∨
-      (d ∧ ∀ j, i < j → j < ops.length → ∃ q, ops[j]? = some (FsOp.mkdir q)) := Iff.rfl
+      (d ∧ ∀ j, i < j → j < ops.length → ∃ q, ops[j]? = some (FsOp.mkdir q)) := by
+  intro i p m hi
+  rcases h i p m hi with x | e | ⟨hd, hl⟩
+  · exact .inl x
+  · exact .inr (.inl ⟨0, _, e, Or.inr ⟨_, rfl⟩, fun j hj => absurd hj (Nat.not_lt_zero j)⟩)
+  · exact .inr (.inr ⟨hd, fun j h1 h2 => by omega⟩)
 
-/-- **a section never leaves a read-only target writable without going on to write it**: in the operations of one section, a
-    `chmod p` is either the permission callback after `p` was re-created, or is followed by the backup / re-creation of the
-    target with nothing in between but the `mkdir`s of the directories of the backup name (`-B bak/`: `Backup::make_backup_for`
-    creates `bak` when it is not there); the only exception is a `chmod` after which a section that aborted with an I/O error (the
-    very next operation that is not such a `mkdir` failed, or a `mkdir` did) has made such directories only.  In particular a
-    section that ends normally (patched, refused, skipped) or aborts for any other reason (prerequisite, malformed text, …) has not
-    changed any mode except on its way to a write.
-
-    CHANGED with the model change "`make_backup_for` creates the directories of the backup name".  The statement was
-
-        … (∃ op, ops[i + 1]? = some op ∧ ((∃ b, op = FsOp.rename p b) ∨ ∃ b, op = FsOp.creat b)) ∨
-          (r = .error .systemError ∧ i + 1 = ops.length)
-
-    ("DIRECTLY followed"), which is false now: `chmod_directly_false` below (`chmod f`, `mkdir bak`, `rename f bak/f`).  It still
-    holds for every run in which no `chmod` is directly followed by a `mkdir`: `chmod_late_direct`. -/
-theorem section_chmod_late (o : Options) (format : Format) (s s' : DState) (r : Except Exn Bool)
+/-- **a section never leaves a read-only target writable without going on to write it** (NEW with the model change "the backup is
+    taken before `make_writable`", D93; the strong form of `section_chmod_late`): in the operations of one section, a `chmod p` is
+    either the permission callback after `p` was re-created, or is DIRECTLY followed by the re-creation `creat p` of the target; the
+    only exception is a `chmod` that is the very last operation of a section that aborted with an I/O error (that `creat` failed).
+    In particular the backup of a read-only file — which is made before — keeps the mode of the file. -/
+theorem section_chmod_direct (o : Options) (format : Format) (s s' : DState) (r : Except Exn Bool)
     (h : (processSection o format).run s = (r, s')) :
     ∃ ops, s'.trace = s.trace ++ ops ∧
       ∀ i p m, ops[i]? = some (FsOp.chmod p m) →
         (∃ j, j < i ∧ ops[j]? = some (FsOp.creat p)) ∨
-        (∃ k op, ops[i + 1 + k]? = some op ∧ ((∃ b, op = FsOp.rename p b) ∨ ∃ b, op = FsOp.creat b) ∧
-          ∀ j, j < k → ∃ q, ops[i + 1 + j]? = some (FsOp.mkdir q)) ∨
-        (r = .error .systemError ∧ ∀ j, i < j → j < ops.length → ∃ q, ops[j]? = some (FsOp.mkdir q)) := by
+        ops[i + 1]? = some (FsOp.creat p) ∨
+        (r = .error .systemError ∧ i + 1 = ops.length) := by
   cases r with
   | ok a =>
     obtain ⟨ops, e, hl⟩ := (DriverFacts.processSection_late o format).ok _ _ _ h
@@ -88,16 +92,13 @@ theorem section_chmod_late (o : Options) (format : Format) (s s' : DState) (r : 
     obtain ⟨ops, e', hl⟩ := (DriverFacts.processSection_late o format).err _ _ _ h
     exact ⟨ops, e', fun i p m hi => (hl i p m hi).imp id (Or.imp id (fun x => ⟨by rw [x.1], x.2⟩))⟩
 
-/-- the same for a whole run (sections and `DeferredWriter::finalize`): a `chmod` that is neither after the `creat` of its path nor
-    before a backup / creation (with only `mkdir`s in between) is followed by `mkdir`s only, in a run that ended with exit status 2.
-    (CHANGED as `section_chmod_late`; it was "directly before" / "is the last operation".) -/
-theorem run_chmod_late (o : Options) (s0 : DState) :
+/-- the same for a whole run (sections and `DeferredWriter::finalize`) (NEW, the strong form of `run_chmod_late`) -/
+theorem run_chmod_direct (o : Options) (s0 : DState) :
     ∃ ops, (runPatch o s0).2.trace = s0.trace ++ ops ∧
       ∀ i p m, ops[i]? = some (FsOp.chmod p m) →
         (∃ j, j < i ∧ ops[j]? = some (FsOp.creat p)) ∨
-        (∃ k op, ops[i + 1 + k]? = some op ∧ ((∃ b, op = FsOp.rename p b) ∨ ∃ b, op = FsOp.creat b) ∧
-          ∀ j, j < k → ∃ q, ops[i + 1 + j]? = some (FsOp.mkdir q)) ∨
-        ((runPatch o s0).1 = 2 ∧ ∀ j, i < j → j < ops.length → ∃ q, ops[j]? = some (FsOp.mkdir q)) := by
+        ops[i + 1]? = some (FsOp.creat p) ∨
+        ((runPatch o s0).1 = 2 ∧ i + 1 = ops.length) := by
   unfold runPatch
   split
   · exact ⟨[], by simp, fun i p m hi => by simp at hi⟩
@@ -109,32 +110,60 @@ theorem run_chmod_late (o : Options) (s0 : DState) :
       obtain ⟨ops, e', hl⟩ := (DriverFacts.processPatchM_late o).err _ _ _ hr
       exact ⟨ops, e', fun i p m hi => (hl i p m hi).imp id (Or.imp id (fun x => ⟨rfl, x.2⟩))⟩
 
-/-- the statements as they were ("directly followed" / "the very last operation") hold for every list of operations with the
-    property above in which no `chmod` is directly followed by a `mkdir` (no backup directory had to be made) -/
+/-- **a section never leaves a read-only target writable without going on to write it**: in the operations of one section, a
+    `chmod p` is either the permission callback after `p` was re-created, or is followed by the backup / re-creation of the
+    target with nothing in between but the `mkdir`s of the directories of the backup name; the only exception is a `chmod` after
+    which a section that aborted with an I/O error has made such directories only.  In particular a section that ends normally
+    (patched, refused, skipped) or aborts for any other reason (prerequisite, malformed text, …) has not changed any mode except on
+    its way to a write.
+
+    (Statement unchanged by the model change "the backup is taken before `make_writable`"; it is a consequence of the stronger
+    `section_chmod_direct` now: no `mkdir` and no backup comes between the `chmod` and the `creat` any more.) -/
+theorem section_chmod_late (o : Options) (format : Format) (s s' : DState) (r : Except Exn Bool)
+    (h : (processSection o format).run s = (r, s')) :
+    ∃ ops, s'.trace = s.trace ++ ops ∧
+      ∀ i p m, ops[i]? = some (FsOp.chmod p m) →
+        (∃ j, j < i ∧ ops[j]? = some (FsOp.creat p)) ∨
+        (∃ k op, ops[i + 1 + k]? = some op ∧ ((∃ b, op = FsOp.rename p b) ∨ ∃ b, op = FsOp.creat b) ∧
+          ∀ j, j < k → ∃ q, ops[i + 1 + j]? = some (FsOp.mkdir q)) ∨
+        (r = .error .systemError ∧ ∀ j, i < j → j < ops.length → ∃ q, ops[j]? = some (FsOp.mkdir q)) := by
+  obtain ⟨ops, e, hl⟩ := section_chmod_direct o format s s' r h
+  exact ⟨ops, e, chmodLate_weak (d := r = .error .systemError) hl⟩
+
+/-- the same for a whole run (sections and `DeferredWriter::finalize`): a `chmod` that is neither after the `creat` of its path nor
+    before a backup / creation (with only `mkdir`s in between) is followed by `mkdir`s only, in a run that ended with exit status 2.
+    (Statement unchanged; a consequence of `run_chmod_direct` now.) -/
+theorem run_chmod_late (o : Options) (s0 : DState) :
+    ∃ ops, (runPatch o s0).2.trace = s0.trace ++ ops ∧
+      ∀ i p m, ops[i]? = some (FsOp.chmod p m) →
+        (∃ j, j < i ∧ ops[j]? = some (FsOp.creat p)) ∨
+        (∃ k op, ops[i + 1 + k]? = some op ∧ ((∃ b, op = FsOp.rename p b) ∨ ∃ b, op = FsOp.creat b) ∧
+          ∀ j, j < k → ∃ q, ops[i + 1 + j]? = some (FsOp.mkdir q)) ∨
+        ((runPatch o s0).1 = 2 ∧ ∀ j, i < j → j < ops.length → ∃ q, ops[j]? = some (FsOp.mkdir q)) := by
+  obtain ⟨ops, e, hl⟩ := run_chmod_direct o s0
+  exact ⟨ops, e, chmodLate_weak (d := (runPatch o s0).1 = 2) hl⟩
+
+/-- the "directly followed" / "the very last operation" form for every list of operations with the property `ChmodLate`
+    (statement unchanged; the hypothesis `hno` — no `chmod` is directly followed by a `mkdir` — is not needed any more, since
+    `ChmodLate` itself says "directly" again) -/
 theorem chmod_late_direct (d : Prop) (ops : List FsOp) (h : DriverFacts.ChmodLate d ops)
-    (hno : ∀ i p m q, ops[i]? = some (FsOp.chmod p m) → ops[i + 1]? ≠ some (FsOp.mkdir q)) :
+    (_hno : ∀ i p m q, ops[i]? = some (FsOp.chmod p m) → ops[i + 1]? ≠ some (FsOp.mkdir q)) :
     ∀ i p m, ops[i]? = some (FsOp.chmod p m) →
       (∃ j, j < i ∧ ops[j]? = some (FsOp.creat p)) ∨
       (∃ op, ops[i + 1]? = some op ∧ ((∃ b, op = FsOp.rename p b) ∨ ∃ b, op = FsOp.creat b)) ∨
       (d ∧ i + 1 = ops.length) := by
   intro i p m hi
-  rcases h i p m hi with x | ⟨k, op, e, hop, hmk⟩ | ⟨hd, hall⟩
+  rcases h i p m hi with x | e | x
   · exact .inl x
-  · cases k with
-    | zero => exact .inr (.inl ⟨op, e, hop⟩)
-    | succ k =>
-      obtain ⟨q, hq⟩ := hmk 0 (by omega)
-      exact absurd hq (hno i p m q hi)
-  · have hlt : i < ops.length := DriverFacts.getElem?_lt_of_some hi
-    rcases Nat.lt_or_ge (i + 1) ops.length with h1 | h1
-    · obtain ⟨q, hq⟩ := hall (i + 1) (by omega) h1
-      exact absurd hq (hno i p m q hi)
-    · exact .inr (.inr ⟨hd, by omega⟩)
+  · exact .inr (.inl ⟨_, e, Or.inr ⟨_, rfl⟩⟩)
+  · exact .inr (.inr x)
 
-/-! the old statement is false: `-B bak/`, the directory `bak` not there, a read-only file `f` whose (deferred) write with a backup is
-    due — `chmod f`, `mkdir bak`, `rename f bak/f`, `creat f`, … (the state is the one a git patch for `f` leaves to
-    `DeferredWriter::finalize`; for a plain unified diff of a read-only `f` under `-b -B bak/` the compiled model gives the same
-    six operations after the temporaries: `#guard` below) -/
+/-! `-B bak/`, the directory `bak` not there, a read-only file `f` whose (deferred) write with a backup is due: the run that refuted
+    the "directly" statement while `make_writable` ran before the backup (`chmod f`, `mkdir bak`, `rename f bak/f`, `creat f`, …) is
+    now `mkdir bak`, `rename f bak/f`, `creat f`, … — no `chmod` before the backup at all, since `f` is gone when `make_writable`
+    looks for it; the backup `bak/f` keeps mode 0444 (the state is the one a git patch for `f` leaves to `DeferredWriter::finalize`;
+    for a plain unified diff of a read-only `f` under `-b -B bak/` the compiled model gives the same five operations after the
+    temporaries: `#guard` below) -/
 def cexO : Options := { defaultOptions with backupPrefix := [98, 97, 107, 47] }
 def cexS : DState :=
   { fs := { nodes := [([102], .file [97, 10] 0o444)] }, firstPatch := false,
@@ -142,36 +171,37 @@ def cexS : DState :=
                   backup := true }] }
 
 theorem cex_run : (runPatch cexO cexS).2.trace =
-    [.tmpCreate, .tmpUnlink, .chmod [102] 438, .mkdir [98, 97, 107], .rename [102] [98, 97, 107, 47, 102], .creat [102],
-      .write [102] [98, 10], .chmod [102] 292] ∧ (runPatch cexO cexS).1 = 0 := by decide +kernel
+    [.tmpCreate, .tmpUnlink, .mkdir [98, 97, 107], .rename [102] [98, 97, 107, 47, 102], .creat [102],
+      .write [102] [98, 10], .chmod [102] 292] ∧ (runPatch cexO cexS).1 = 0 ∧
+    (runPatch cexO cexS).2.fs.lookup [98, 97, 107, 47, 102] = some (.file [97, 10] 0o444) ∧
+    (runPatch cexO cexS).2.fs.lookup [102] = some (.file [98, 10] 0o444) := by decide +kernel
 
-theorem chmod_directly_false :
-    ¬ ∀ (o : Options) (s0 : DState), ∃ ops, (runPatch o s0).2.trace = s0.trace ++ ops ∧
+/-- CHANGED with the model change "the backup is taken before `make_writable`" (D93): this was `chmod_directly_false`, the NEGATION
+    of this statement (refuted by `chmod f`, `mkdir bak`, `rename f bak/f`); the statement itself holds again -/
+theorem chmod_directly (o : Options) (s0 : DState) : ∃ ops, (runPatch o s0).2.trace = s0.trace ++ ops ∧
       ∀ i p m, ops[i]? = some (FsOp.chmod p m) →
         (∃ j, j < i ∧ ops[j]? = some (FsOp.creat p)) ∨
         (∃ op, ops[i + 1]? = some op ∧ ((∃ b, op = FsOp.rename p b) ∨ ∃ b, op = FsOp.creat b)) ∨
         ((runPatch o s0).1 = 2 ∧ i + 1 = ops.length) := by
-  intro h
-  obtain ⟨ops, t, hl⟩ := h cexO cexS
-  rw [cex_run.1] at t
-  have t' : ops = [.tmpCreate, .tmpUnlink, .chmod [102] 438, .mkdir [98, 97, 107], .rename [102] [98, 97, 107, 47, 102],
-      .creat [102], .write [102] [98, 10], .chmod [102] 292] := by
-    rw [t]; rfl
-  subst t'
-  rcases hl 2 [102] 438 rfl with ⟨j, hj, e⟩ | ⟨op, e, hop⟩ | ⟨e, _⟩
-  · match j, hj, e with
-    | 0, _, e => cases e
-    | 1, _, e => cases e
-  · cases e
-    rcases hop with ⟨b, hb⟩ | ⟨b, hb⟩ <;> cases hb
-  · rw [cex_run.2] at e; cases e
+  obtain ⟨ops, e, hl⟩ := run_chmod_direct o s0
+  refine ⟨ops, e, fun i p m hi => ?_⟩
+  rcases hl i p m hi with x | e | x
+  · exact .inl x
+  · exact .inr (.inl ⟨_, e, Or.inr ⟨_, rfl⟩⟩)
+  · exact .inr (.inr x)
 
 -- a whole run on a unified diff: `patch -b -B bak/ f` with a read-only `f` (compiled evaluation of the model: a test, not a proof)
 #guard (runPatch { defaultOptions with backupPrefix := [98, 97, 107, 47], saveBackup := true, fileToPatch := [102] }
     { fs := { nodes := [([102], .file [97, 10] 0o444)] },
       stdin := str "--- f\n+++ f\n@@ -1 +1 @@\n-a\n+b\n" }).2.trace ==
-  [.tmpCreate, .tmpUnlink, .tmpCreate, .tmpUnlink, .tmpCreate, .tmpUnlink, .chmod [102] 438, .mkdir [98, 97, 107],
+  [.tmpCreate, .tmpUnlink, .tmpCreate, .tmpUnlink, .tmpCreate, .tmpUnlink, .mkdir [98, 97, 107],
     .rename [102] [98, 97, 107, 47, 102], .creat [102], .write [102] [98, 10], .chmod [102] 292]
+-- without a backup: `chmod f 0644` (only the write bit of the owner is added), directly followed by the `creat`
+#guard (runPatch { defaultOptions with fileToPatch := [102] }
+    { fs := { nodes := [([102], .file [97, 10] 0o444)] },
+      stdin := str "--- f\n+++ f\n@@ -1 +1 @@\n-a\n+b\n" }).2.trace ==
+  [.tmpCreate, .tmpUnlink, .tmpCreate, .tmpUnlink, .tmpCreate, .tmpUnlink, .chmod [102] 420,
+    .creat [102], .write [102] [98, 10], .chmod [102] 292]
 
 /-- after the patched result has been written, the permission callback gives the file exactly the mode a git header asks for, or else
     the mode the target had before (also when it had to be made writable, and also when a backup renamed the original away) -/
@@ -247,23 +277,25 @@ theorem refuse_no_hunks_untouched (o : Options) (outputFile : Bytes) (p : Patch)
       s'.rejWritten = s.rejWritten :=
   ⟨_, refuse_no_hunks o outputFile p s hh, rfl, rfl, rfl, rfl⟩
 
-/-! ## the refusal test: what is patched must be a regular file (and a symbolic link only if the patch is about one)
+/-! ## the refusal test: what is patched must be a regular file (and never a symbolic link)
 
 CHANGED with the model change "a symbolic link is only what is patched if the patch says that it is one; the new name of a rename
-or copy must be a regular file too".  New here. -/
+or copy must be a regular file too".  New here.
+CHANGED again with the model change "a symbolic link is never read or written through, not even for a patch which is about a link"
+(D92): the exemption for patches with a symbolic-link mode is gone (`notRegularAt`, `refusedM`, `refusedAt` lose the argument that
+said whether the patch is about a link / the patch). -/
 
-/-- `is_not_a_regular_file(path)` of `process_patch`, as a function of the tree: a symbolic link (`lstat`) unless the patch is
-    about a symbolic link, or something that exists (`stat`) and is not a regular file -/
-def notRegularAt (s : DState) (symPatch : Bool) (p : Bytes) : Bool :=
-  (!symPatch && (match s.fs.lookup (absPath s p) with | some (.symlink _) => true | _ => false)) ||
+/-- `is_not_a_regular_file(path)` of `process_patch`, as a function of the tree: a symbolic link (`lstat`), or something that
+    exists (`stat`) and is not a regular file -/
+def notRegularAt (s : DState) (p : Bytes) : Bool :=
+  (match s.fs.lookup (absPath s p) with | some (.symlink _) => true | _ => false) ||
   ((s.fs.stat (absPath s p)).isSome && !(match s.fs.stat (absPath s p) with | some (.file _ _) => true | _ => false))
 
 /-- the refusal test of `processSection` (a copy of the block that computes `refused` there; `section_refused` below runs
     `processSection` through it) -/
-def refusedM (o : Options) (patch0 : Patch) (fileToPatch outputFile : Bytes) : DM Bool :=
-  let symPatch := isSymlinkMode patch0.oldMode || isSymlinkMode patch0.newMode
+def refusedM (o : Options) (fileToPatch outputFile : Bytes) : DM Bool :=
   let notRegular (p : Bytes) : DM Bool := do
-    if !symPatch && (← fsIsSymlink p) then return true
+    if (← fsIsSymlink p) then return true
     return (← fsExists p) && !(← fsIsRegular p)
   (do
     if (← notRegular fileToPatch) then return true
@@ -271,10 +303,9 @@ def refusedM (o : Options) (patch0 : Patch) (fileToPatch outputFile : Bytes) : D
     return false : DM Bool)
 
 /-- what the test says, as a function of the tree -/
-def refusedAt (o : Options) (patch0 : Patch) (s : DState) (fileToPatch outputFile : Bytes) : Bool :=
-  notRegularAt s (isSymlinkMode patch0.oldMode || isSymlinkMode patch0.newMode) fileToPatch ||
-  (o.outFile.isEmpty && outputFile != fileToPatch &&
-    notRegularAt s (isSymlinkMode patch0.oldMode || isSymlinkMode patch0.newMode) outputFile)
+def refusedAt (o : Options) (s : DState) (fileToPatch outputFile : Bytes) : Bool :=
+  notRegularAt s fileToPatch ||
+  (o.outFile.isEmpty && outputFile != fileToPatch && notRegularAt s outputFile)
 
 theorem run_fsIsSymlink (p : Bytes) (s : DState) : run (fsIsSymlink p) s =
     (.ok (match s.fs.lookup (absPath s p) with | some (.symlink _) => true | _ => false), s) := rfl
@@ -286,16 +317,14 @@ theorem run_ite {α} (c : Prop) [Decidable c] (a b : DM α) (s : DState) :
     run (if c then a else b) s = if c then run a s else run b s := by split <;> rfl
 
 /-- **the refusal test only looks, and says exactly `refusedAt`** -/
-theorem run_refusedM (o : Options) (patch0 : Patch) (ftp out : Bytes) (s : DState) :
-    run (refusedM o patch0 ftp out) s = (.ok (refusedAt o patch0 s ftp out), s) := by
+theorem run_refusedM (o : Options) (ftp out : Bytes) (s : DState) :
+    run (refusedM o ftp out) s = (.ok (refusedAt o s ftp out), s) := by
   unfold refusedM refusedAt notRegularAt
   simp only [run_bind, run_fsIsSymlink, run_fsExists, run_fsIsRegular, run_ite, run_pure]
-  cases h1 : (!(isSymlinkMode patch0.oldMode || isSymlinkMode patch0.newMode) &&
-      match s.fs.lookup (absPath s ftp) with | some (Node.symlink _) => true | _ => false) <;>
+  cases h1 : (match s.fs.lookup (absPath s ftp) with | some (Node.symlink _) => true | _ => false) <;>
   cases h2 : ((s.fs.stat (absPath s ftp)).isSome &&
       !match s.fs.stat (absPath s ftp) with | some (Node.file _ _) => true | _ => false) <;>
-  cases h3 : (!(isSymlinkMode patch0.oldMode || isSymlinkMode patch0.newMode) &&
-      match s.fs.lookup (absPath s out) with | some (Node.symlink _) => true | _ => false) <;>
+  cases h3 : (match s.fs.lookup (absPath s out) with | some (Node.symlink _) => true | _ => false) <;>
   cases h4 : ((s.fs.stat (absPath s out)).isSome &&
       !match s.fs.stat (absPath s out) with | some (Node.file _ _) => true | _ => false) <;>
   cases h5 : (List.isEmpty o.outFile && out != ftp) <;>
@@ -412,7 +441,7 @@ theorem section_refused (o : Options) (fmt : Format) (s s' : DState) (r : Except
     (hop : o.fileToPatch = p) (hp : p ≠ [])
     (hdr : parseHeader s.par { format := fmt } o.strip = .ok (spb, patch0, info, par1))
     (hfmt : patch0.format ≠ .unknown) (hbin : patch0.operation ≠ .binary)
-    (href : refusedAt o patch0 s p (outputPath o patch0 p) = true)
+    (href : refusedAt o s p (outputPath o patch0 p) = true)
     (h : (processSection o fmt).run s = (r, s')) :
     (∃ ops, s'.trace = s.trace ++ ops ∧ ∀ op ∈ ops, ∀ q ∈ op.paths,
         q = absPath s (rejectPath o (outputPath o patch0 p)) ∨
@@ -437,8 +466,8 @@ theorem section_refused (o : Options) (fmt : Format) (s s' : DState) (r : Except
     have hfs : s2.fs = s.fs := hfs
     have hcwd : s2.cwd = s.cwd := hcwd
     have t1 : s2.trace = s.trace ++ ops1 := t1
-    have hre := run_refusedM o patch0 p (outputPath o patch0 p) s2
-    have e : refusedAt o patch0 s2 p (outputPath o patch0 p) = true := by
+    have hre := run_refusedM o p (outputPath o patch0 p) s2
+    have e : refusedAt o s2 p (outputPath o patch0 p) = true := by
       rw [← href]; unfold refusedAt notRegularAt absPath; rw [hfs, hcwd]
     rw [e] at hre
     unfold refusedM at hre
@@ -459,15 +488,14 @@ theorem section_refused (o : Options) (fmt : Format) (s s' : DState) (r : Except
     exact ⟨⟨ops1, t1, hops1⟩, fun b hb => by cases hb⟩
 
 
-theorem refusedAt_of_symlink {o : Options} {patch0 : Patch} {s : DState} {p out t : Bytes}
-    (hsym : s.fs.lookup (absPath s p) = some (.symlink t))
-    (hold : isSymlinkMode patch0.oldMode = false) (hnew : isSymlinkMode patch0.newMode = false) :
-    refusedAt o patch0 s p out = true := by
+theorem refusedAt_of_symlink {o : Options} {s : DState} {p out t : Bytes}
+    (hsym : s.fs.lookup (absPath s p) = some (.symlink t)) :
+    refusedAt o s p out = true := by
   unfold refusedAt notRegularAt
-  simp only [hsym, hold, hnew, Bool.or_false, Bool.not_false, Bool.and_self, Bool.true_or]
+  simp only [hsym, Bool.true_or]
 
-theorem notRegularAt_of_stat {s : DState} {sym : Bool} {p : Bytes} {n : Node}
-    (hst : s.fs.stat (absPath s p) = some n) (hn : ∀ b m, n ≠ .file b m) : notRegularAt s sym p = true := by
+theorem notRegularAt_of_stat {s : DState} {p : Bytes} {n : Node}
+    (hst : s.fs.stat (absPath s p) = some n) (hn : ∀ b m, n ≠ .file b m) : notRegularAt s p = true := by
   unfold notRegularAt
   rw [hst]
   cases n with
@@ -477,29 +505,31 @@ theorem notRegularAt_of_stat {s : DState} {sym : Bool} {p : Bytes} {n : Node}
   | other m => simp
 
 /-- the converse on the plain path: a regular file that is reached directly and is written in place passes the test -/
-theorem refusedAt_regular {o : Options} {patch0 : Patch} {s : DState} {p b : Bytes} {m : Nat}
-    (hfile : s.fs.lookup (absPath s p) = some (.file b m)) : refusedAt o patch0 s p p = false := by
+theorem refusedAt_regular {o : Options} {s : DState} {p b : Bytes} {m : Nat}
+    (hfile : s.fs.lookup (absPath s p) = some (.file b m)) : refusedAt o s p p = false := by
   unfold refusedAt notRegularAt
   simp [hfile, Fs.stat]
 
-/-- **a symbolic link is not patched by a patch that is not about a symbolic link**: when the file operand names a symbolic link
-    (`lstat`; wherever it points to, a regular file included) and neither the old nor the new mode of the patch is that of a
-    symbolic link (`120000`), the section is refused: no operation other than those of the refusal (`refuse_touches_only_rejects`:
-    the reject file and the directories leading to it; the two operations on the anonymous temporary have no path) happens — so
-    neither the link, nor what it points to, nor a backup is touched —, and the failure flag is set. -/
+/-- **a symbolic link is not patched** — not even by a patch that is about a symbolic link: when the file operand names a symbolic
+    link (`lstat`; wherever it points to, a regular file included), the section is refused: no operation other than those of the
+    refusal (`refuse_touches_only_rejects`: the reject file and the directories leading to it; the two operations on the anonymous
+    temporary have no path) happens — so neither the link, nor what it points to, nor a backup is touched —, and the failure flag
+    is set.
+
+    CHANGED with the model change "a symbolic link is never read or written through" (D92): the hypotheses
+    `isSymlinkMode patch0.oldMode = false` and `isSymlinkMode patch0.newMode = false` are dropped (no longer needed). -/
 theorem symlink_target_refused (o : Options) (fmt : Format) (s s' : DState) (r : Except Exn Bool) (p t : Bytes)
     (spb : Bool) (patch0 : Patch) (info : HeaderInfo) (par1 : Parser)
     (hop : o.fileToPatch = p) (hp : p ≠ [])
     (hdr : parseHeader s.par { format := fmt } o.strip = .ok (spb, patch0, info, par1))
     (hfmt : patch0.format ≠ .unknown) (hbin : patch0.operation ≠ .binary)
     (hsym : s.fs.lookup (absPath s p) = some (.symlink t))
-    (hold : isSymlinkMode patch0.oldMode = false) (hnew : isSymlinkMode patch0.newMode = false)
     (h : (processSection o fmt).run s = (r, s')) :
     (∃ ops, s'.trace = s.trace ++ ops ∧ ∀ op ∈ ops, ∀ q ∈ op.paths,
         q = absPath s (rejectPath o (outputPath o patch0 p)) ∨
         ∃ d ∈ dirPrefixes (rejectPath o (outputPath o patch0 p)), q = absPath s d) ∧
     (∀ b, r = .ok b → b = true ∧ s'.hadFailure = true) :=
-  section_refused o fmt s s' r p spb patch0 info par1 hop hp hdr hfmt hbin (refusedAt_of_symlink hsym hold hnew) h
+  section_refused o fmt s s' r p spb patch0 info par1 hop hp hdr hfmt hbin (refusedAt_of_symlink hsym) h
 
 /-- **the new name of a rename or copy must be a regular file if it exists**: without `-o`, when the output file is not the file
     to patch (a git rename / copy) and exists as something that is not a regular file — a FIFO, device or socket (`.other m`), a
@@ -590,7 +620,9 @@ def renS : DState :=
 #print axioms refuse_no_hunks
 #print axioms refuse_no_hunks_untouched
 #print axioms chmod_late_direct
-#print axioms chmod_directly_false
+#print axioms chmod_directly
+#print axioms section_chmod_direct
+#print axioms run_chmod_direct
 #print axioms run_refusedM
 #print axioms section_refused
 #print axioms symlink_target_refused
